@@ -20,6 +20,13 @@ Streams
                       every call of the history is replayed through the model's `reconstruct`/`reset_recon` state
                       machine (generator position, reset-before-batcher order, epoch loss = mean over the yielded
                       batches, validation-loss recording) and compared bit for bit
+  rejected    bitwise exception safety: twin objects make a valid run; one then makes a REJECTED configuration call (invalid
+                      batch_size by assignment or through reconstruct(), val_ratio, val_mode, rng, loss_type — exception
+                      caught); the next reconstruct(batch_size=None) must visit every training pattern exactly once per
+                      epoch in ceil(n_train/b) batches and be bit-identical to the twin that never made the call; the
+                      accept/reject decision is tied to the model's `applyCall`
+The numeric stream also compares every way of asking for "one batch holding the whole training set" (batch_size = n_train,
+num_gpts, > num_gpts, default) — with a validation split these differ — for equal loss / recorded loss / gradients.
 The property predicate (partition, exactly-once, len, mean-of-batches = full batch, identical
 histories) is evaluated on the real code with plain Python/NumPy oracles that do not use the model.
 """
@@ -28,7 +35,7 @@ import math
 LEVEL = "proof"
 MANIFEST_ENTRY = {
     "category": "proof",
-    "text": "Lean 4 theorems over an executable model of SimpleBatcher / subdivide_batches / the batch-fraction scaling of error_estimate (the RNG's permutations are inputs, so all shuffles are covered): train/val split is a partition for every n, n_val, grid step, mode and permutation; every epoch yields each training index exactly once for every batch size >= 1; number of batches yielded = ceil(|train|/b) = __len__; i-th batch = order[i*b:(i+1)*b]; validation pass likewise; subdivide_batches sizes sum to n, differ by <= 1, respect max_batch, generate_batches ranges tile [start,start+n); over R the mean of batch losses (and, over any field/vector space, of any additive per-pattern quantity such as gradients) equals the full-batch value when b | n, with a counterexample for b not dividing n; user supplied train/val lists that are a partition satisfy every schedule clause (only one list given raises); a state-machine model of reconstruct/reset_recon/_reset_rng (generator = seed + call position with an arbitrary draw oracle, arbitrary numerical step function): every recorded epoch loss is the sum over the yielded batches divided by their number for every b >= 1 (also non-dividing), validation losses are recorded once per iteration iff the validation set is non-empty, and reconstruct(reset=True) after ANY history of calls on a seeded object returns exactly the state, loss history and schedule of the fresh object (same_seed_same_run, reset_run_independent_of_history). Tied to the code on every run by exact enumeration of the real SimpleBatcher/subdivide_batches and by per-batch losses/gradients recorded inside the real Ptychography.reconstruct loop on tiny problems.",
+    "text": "Lean 4 theorems over an executable model of SimpleBatcher / subdivide_batches / the batch-fraction scaling of error_estimate (the RNG's permutations are inputs, so all shuffles are covered): train/val split is a partition for every n, n_val, grid step, mode and permutation; every epoch yields each training index exactly once for every batch size >= 1; number of batches yielded = ceil(|train|/b) = __len__; i-th batch = order[i*b:(i+1)*b]; validation pass likewise; subdivide_batches sizes sum to n, differ by <= 1, respect max_batch, generate_batches ranges tile [start,start+n); over R the mean of batch losses (and, over any field/vector space, of any additive per-pattern quantity such as gradients) equals the full-batch value when b | n, with a counterexample for b not dividing n; user supplied train/val lists that are a partition satisfy every schedule clause (only one list given raises); a state-machine model of reconstruct/reset_recon/_reset_rng (generator = seed + call position with an arbitrary draw oracle, arbitrary numerical step function): every recorded epoch loss is the sum over the yielded batches divided by their number for every b >= 1 (also non-dividing), validation losses are recorded once per iteration iff the validation set is non-empty, and reconstruct(reset=True) after ANY history of calls on a seeded object returns exactly the state, loss history and schedule of the fresh object (same_seed_same_run, reset_run_independent_of_history); a session model of the validating setters (batch_size, val_ratio, val_mode, rng): a rejected configuration call stores nothing and the next run is the run the object would have made without it (rejected_call_is_noop, run_after_rejected_call). Tied to the code on every run by exact enumeration of the real SimpleBatcher/subdivide_batches and by per-batch losses/gradients recorded inside the real Ptychography.reconstruct loop on tiny problems.",
     "note": "Proved: partition, exactly-once, counts, contiguity, loss/gradient scaling algebra. Measured only (real runs, tiny problems, autograd=True, CPU float32): equality of mean per-batch loss/gradients with the full batch for every divisor batch size and all five loss types, and bitwise identical loss histories for equal seeds / after reset=True. Trusted: NumPy Generator determinism (twin generator reproduces the drawn permutations), torch autograd. The analytic-gradient path (autograd=False) normalises each batch by its own probe overlap and is only measured, not judged.",
     "technique": "Lean 4 proof (induction over batches, permutation/partition lemmas, field algebra) + model-vs-implementation correspondence",
 }
@@ -38,7 +45,8 @@ RULE = ("batcher stream: one case = one SimpleBatcher (n, batch size, val_ratio,
 TRUSTED = ["NumPy Generator determinism: np.random.default_rng(seed) reproduces the permutations SimpleBatcher draws",
            "torch autograd / optimizers (gradient invariance and determinism of real runs are measured, not proved)",
            "Lean Float = IEEE binary64 (n_val = round(n*ratio) and k = round(1/ratio) are computed in the model exactly as in Python)"]
-ASSUMPTIONS = ["invariance of losses/gradients is judged for autograd=True (the default); with autograd=False the 'gradient' is an overlap-normalised update direction whose normalisation depends on the batch — its deviation is reported under measured.analytic_grad_rel_dev, no verdict",
+ASSUMPTIONS = ["rejected-call stream: values handed to the setters are ints, floats, strings, lists; string val_ratio values are non-numeric; a call that is accepted (e.g. batch_size=2.5 is rounded, val_ratio=1.0 is stored) carries no claim; a reconstruct() call that fails on its loss_type has already installed optimizers ('zz') or advanced the generator ('l3_amplitude', rejected inside the first batch) — only the reset clause is judged after it",
+               "invariance of losses/gradients is judged for autograd=True (the default); with autograd=False the 'gradient' is an overlap-normalised update direction whose normalisation depends on the batch — its deviation is reported under measured.analytic_grad_rel_dev, no verdict",
                "'same seed' means every rng= argument (Ptychography, object model, probe model) receives the same seed, each in the same form (int, fresh np.random.Generator, fresh torch.Generator); unseeded objects (rng=None) carry no determinism claim and are not generated",
                "user supplied train_indices/val_indices are not validated by the code: the partition clauses are judged only when the supplied lists are a partition (other inputs are compared with the model only)",
                "gradient/loss comparison tolerance 5e-4 relative to the full-batch magnitude (float32 path); parameters are frozen (optimizer step skipped) while batches are recorded"]
@@ -399,7 +407,7 @@ def pick_seed(rng):
 def gen_numeric_cfg(rng, i):
     scan = rng.choice([(4, 3), (3, 4), (4, 4), (5, 3), (3, 5), (5, 4), (6, 4), (4, 5), (6, 5), (6, 6), (2, 6), (6, 3)])
     roi = rng.choice([(8, 8), (8, 10), (10, 8), (10, 10), (12, 12), (9, 9), (8, 12), (11, 8)])
-    val = rng.weighted([((0.0, "grid"), 5), ((0.25, "grid"), 2), ((0.2, "random"), 2), ((0.5, "grid"), 1), ((0.75, "grid"), 1)])
+    val = rng.weighted([((0.0, "grid"), 4), ((0.25, "grid"), 2), ((0.25, "random"), 1), ((0.2, "random"), 1), ((0.5, "grid"), 1), ((0.5, "random"), 1), ((0.75, "grid"), 1)])
     sd, form, size = pick_seed(rng)
     return {"scan": list(scan), "roi": list(roi), "seed": rng.below(1000), "rng_seed": sd, "rng_form": form, "seed_size": size,
             "loss_type": LOSS_TYPES[i % len(LOSS_TYPES)] if i < 2 * len(LOSS_TYPES) else rng.choice(LOSS_TYPES),
@@ -470,9 +478,46 @@ def numeric_case(ctx, drv, cfg, only_b=None):
             return
         Lf, Gf = ftr[0]["loss"], ftr[0]["grads"]
         Lf_recorded = float(p.iter_losses[-1])      # what reconstruct itself records for the full-batch epoch
+        # ---- "one batch holding the whole training set" in every way the library allows: batch_size = n_train (above),
+        # = num_gpts, > num_gpts, and the default (None on a fresh object → num_gpts).  With a validation split these differ
+        # from n_train; loss and gradients (the library's own scaling) must be the same for all of them.
+        if only_b is None or only_b in ("default", N, N + 3):
+            for wb in (["default", N, N + 3] if only_b is None else [only_b]):
+                ctx.count()
+                ctx.dist[f"numeric:whole-set b={'default' if wb == 'default' else 'N' if wb == N else 'N+3'}"] += 1
+                ctx.mark(("numeric-whole",) + key_cfg + (str(wb),))
+                pw = build(cfg) if wb == "default" else p
+                rw = [e for e in pt.record_batches(pw, None if wb == "default" else wb, loss_type=lt) if not e["val"]]
+                wcase = {"stream": "numeric", "cfg": cfg, "b": wb}
+                if len(rw) != 1 or sorted(rw[0]["indices"]) != train:
+                    ctx.pred_fail("whole-set-batch-not-single", f"batch_size={wb} (>= number of training patterns) does not give exactly one batch holding every training pattern", wcase,
+                                  observed=[e["indices"] for e in rw], required=train)
+                    continue
+                dl = abs(rw[0]["loss"] - Lf) / max(abs(Lf), 1e-6)
+                ctx.stat_max("invariance_whole_set_loss_rel_dev", dl)
+                if dl > TOL32:
+                    ctx.pred_fail("invariance-whole-set-batch-size", f"the loss of the single batch holding the whole training set depends on the batch size it was requested with (loss_type={lt})", wcase,
+                                  observed={"batch_size": wb if wb != "default" else f"default ({N})", "loss": rw[0]["loss"], "ratio": rw[0]["loss"] / Lf if Lf else None,
+                                            "n_train": n, "num_gpts": N}, required={"batch_size": n, "loss": Lf})
+                rl = float(pw.iter_losses[-1])
+                if abs(rl - Lf_recorded) / max(abs(Lf_recorded), 1e-6) > TOL32:
+                    ctx.pred_fail("invariance-whole-set-batch-size", f"the recorded iter_losses entry of a whole-set epoch depends on the requested batch size (loss_type={lt})", wcase,
+                                  observed={"batch_size": str(wb), "iter_loss": rl}, required={"batch_size": n, "iter_loss": Lf_recorded})
+                for which in ("object", "probe"):
+                    gf, gw = Gf[which], rw[0]["grads"][which]
+                    if gf is None or gw is None:
+                        continue
+                    gs = float(np.abs(gf).max())
+                    dg = float(np.abs(gw - gf).max()) / max(gs, 1e-30)
+                    ctx.stat_max("invariance_whole_set_grad_rel_dev", dg)
+                    if gs > 0 and dg > TOL32:
+                        ctx.pred_fail("invariance-whole-set-batch-size", f"the {which} gradient of the single batch holding the whole training set depends on the requested batch size (loss_type={lt})", wcase,
+                                      observed={"batch_size": str(wb), "max_abs_dev_rel_to_full": dg, "n_train": n, "num_gpts": N}, required="equal to float32 accuracy (5e-4 relative)")
+            if only_b is not None:
+                return
         bs = divisors(n)
         nondiv = [b for b in range(2, n + 3) if n % b != 0]
-        rng = ctx.rng.fork(hash(key_cfg) & 0xFFFF)
+        rng = ctx.rng.fork(cfg["seed"] * 7919 + n)
         extra = rng.sample(nondiv, min(2, len(nondiv)))
         todo = [b for b in bs if b != n] + extra
         if only_b is not None:
@@ -718,6 +763,98 @@ def history_case(ctx, drv, cfg, b):
     ctx.sample({"stream": "history", "cfg": cfg, "b": b, "losses_first_run": A["losses"], "continuations": cfg.get("cont", [1, 2])}, limit=6)
 
 
+# ---------------------------------------------------------------------------------------
+# stream (e): exception safety — a rejected configuration call must leave the schedule untouched
+
+REJECTS = [("batch_size", -1), ("batch_size", 0), ("batch_size", -7), ("batch_size", "a"), ("batch_size", [3]),
+           ("reconstruct_batch_size", -1), ("reconstruct_batch_size", 0), ("reconstruct_batch_size", "b"),
+           ("val_ratio", 1.5), ("val_ratio", -0.25), ("val_ratio", "x"), ("val_mode", "Grid"), ("val_mode", ""), ("val_mode", 3),
+           ("rng", "abc"), ("rng", 1.5), ("rng", -3), ("rng", [1, 2]), ("reconstruct_loss_type", "zz"), ("reconstruct_loss_type", "l3_amplitude")]
+
+
+def do_call(p, kind, value, b):
+    from props import ptycho_tiny as pt
+    if kind == "reconstruct_batch_size":
+        p.reconstruct(num_iters=1, batch_size=value, optimizer_params=pt.sgd_params())
+    elif kind == "reconstruct_loss_type":
+        p.reconstruct(num_iters=1, batch_size=b, loss_type=value, optimizer_params=pt.sgd_params())
+    else:
+        setattr(p, kind, value)
+
+
+def rejected_case(ctx, drv, cfg, b, rej, follow_reset):
+    """twin objects: both make a valid run; one then makes a configuration call that is REJECTED (exception caught by
+    the user); both then call reconstruct(batch_size=None).  The follow-up run of the first object must visit every
+    training pattern exactly once per epoch with len = batches yielded, and be bit-identical to the twin's."""
+    from props import ptycho_tiny as pt
+    kind, value = rej
+    iters = 2
+    if kind == "reconstruct_loss_type":
+        # reconstruct() checks loss_type late: 'zz' is rejected by dset._set_targets after the optimizers of the call were
+        # installed, 'l3_amplitude' ("amplitude" in it) only by error_estimate inside the first batch, after the batcher has
+        # drawn from the generator.  A run that failed half-way is not a rejected *configuration* call; the property only
+        # promises that a RESET afterwards reproduces the run
+        follow_reset = True
+    case = {"stream": "rejected", "cfg": cfg, "b": b, "rej": [kind, value], "follow_reset": follow_reset}
+
+    def go(p, bb, reset, first=False):
+        rec = pt.record_batches(p, bb, num_iters=iters, freeze=False, reset=reset, loss_type=cfg["loss_type"],
+                                optimizer_params=pt.sgd_params(cfg["lr"], cfg["lr"]), keep_optimizers=(not reset) and not first)
+        it0 = min([e["iter"] for e in rec], default=0)
+        return {"sched": [[e["indices"] for e in rec if not e["val"] and e["iter"] == it0 + k] for k in range(iters)],
+                "val": [[e["indices"] for e in rec if e["val"] and e["iter"] == it0 + k] for k in range(iters)],
+                "losses": [float(x) for x in p.iter_losses], "val_losses": [float(x) for x in p.val_iter_losses]}
+    with pt.no_gc():
+        p, q = build(cfg), build(cfg)
+        a1, a2 = go(p, b, True, first=True), go(q, b, True, first=True)
+        try:
+            do_call(p, kind, value, b)
+            outcome = "accepted"
+        except Exception as e:  # noqa
+            outcome = type(e).__name__
+        ctx.count()
+        ctx.dist[f"rejected:{kind}={value!r} -> {outcome}"] += 1
+        ctx.mark(("rejected", kind, repr(value), b, cfg["val_ratio"], cfg["val_mode"], follow_reset))
+        # the model's accept/reject decision for this call (Model/Batcher.lean `applyCall`)
+        if kind in ("batch_size", "reconstruct_batch_size", "val_ratio", "val_mode", "rng"):
+            m = drv.ask({"op": "cfg_call", "kind": "batch_size" if kind == "reconstruct_batch_size" else kind, "value": value})
+            if "ok" not in m:
+                raise HarnessError(f"driver error {m}")
+            if m["ok"]["rejected"] != (outcome != "accepted"):
+                ctx.disagree("config-call-accept-reject", case, m["ok"], {"rejected": outcome != "accepted", "outcome": outcome})
+        if outcome == "accepted":
+            return          # not a rejected call: no claim
+        if a1 != a2:
+            ctx.pred_fail("determinism-same-seed", "two objects built with the same seed produced different first runs", case, observed=a1["losses"], required=a2["losses"])
+        try:
+            r1 = go(p, None, follow_reset)
+        except Exception as e:  # noqa
+            ctx.pred_fail("run-after-rejected-call-raises", f"after the rejected call {kind}={value!r} ({outcome}, caught) the next reconstruct(batch_size=None, reset={follow_reset}) raises "
+                          f"{type(e).__name__}: {str(e)[:120]}", case, observed=f"{type(e).__name__}: {e}"[:300], required="a run identical to that of an object that never made the rejected call")
+            return
+        r2 = go(q, None, follow_reset)
+    # (every reconstruct call builds a new batcher — in random mode a new split — so the reference sets are those of
+    # this very run: its first epoch and its validation pass must partition all patterns)
+    N = cfg["scan"][0] * cfg["scan"][1]
+    train = sorted(i for batch in r1["sched"][0] for i in batch)
+    val = [i for batch in r1["val"][0] for i in batch]
+    if sorted(train + val) != list(range(N)):
+        ctx.pred_fail("epoch-not-exactly-once-after-rejected-call", f"after the rejected call {kind}={value!r} the first epoch and the validation pass of the next run do not partition all patterns",
+                      case, observed={"train_visited": train, "val_visited": val}, required=f"a partition of range({N})")
+    nb = -(-len(train) // b)
+    for k, ep in enumerate(r1["sched"]):
+        flat = [i for batch in ep for i in batch]
+        if sorted(flat) != train or len(ep) != nb or any(len(x) == 0 or len(x) > b for x in ep):
+            ctx.pred_fail("epoch-not-exactly-once-after-rejected-call", f"after the rejected call {kind}={value!r} an epoch of the next run does not visit every training pattern exactly once in ceil(n_train/b) batches",
+                          dict(case, epoch=k), observed={"batches": ep}, required={"train": train, "number_of_batches": nb, "batch_size": b})
+            break
+    if r1 != r2:
+        what = next(k for k in r1 if r1[k] != r2[k])
+        ctx.pred_fail("rejected-call-changes-next-run", f"the run after the rejected call {kind}={value!r} differs from the run of a twin object that never made it ({what})", case,
+                      observed={what: r1[what]}, required={what: r2[what]})
+    ctx.sample({"stream": "rejected", "rejected_call": [kind, value], "outcome": outcome, "b": b, "follow_reset": follow_reset, "next_run_first_epoch": r1["sched"][0]}, limit=8)
+
+
 def rng_first_reset(cfg):
     """the fresh comparison object alternates between a first run with and without reset (both must give the same history)"""
     return (cfg["rng_seed"] + cfg["iters"]) % 2 == 0
@@ -750,6 +887,8 @@ def guarded(ctx, fn, case, *args):
         case = dict(case, cfg=cfg)
         if fn is determinism_case or fn is history_case:
             case["b"] = args[-1]
+        if fn is rejected_case:
+            case.update({"b": args[-3], "rej": list(args[-2]), "follow_reset": args[-1]})
         tb = traceback.extract_tb(e.__traceback__)
         where = next((f"{f.filename.split('/src/')[-1]}:{f.lineno}" for f in reversed(tb) if "/quantem/" in f.filename), "harness")
         ctx.pred_fail("reconstruct-raises", f"reconstruct raised {type(e).__name__}: {e} at {where}", case,
@@ -781,6 +920,15 @@ def run(ctx):
             n_train = n - py_nval(n, cfg["val_ratio"])
             b = rng.choice([x for x in (2, 3, 4, 5, 7) if x < n_train] or [1])      # shuffled mini-batches: b < number of training patterns
             guarded(ctx, history_case, {"stream": "history"}, ctx, drv, cfg, b)
+        rng = ctx.rng.fork(5)
+        rej_order = rng.shuffle(REJECTS)
+        for i in range(ctx.n(len(REJECTS), 4 * len(REJECTS))):
+            cfg = gen_history_cfg(rng, i)
+            n = cfg["scan"][0] * cfg["scan"][1]
+            n_train = n - py_nval(n, cfg["val_ratio"])
+            b = rng.choice([x for x in (2, 3, 4, 5, 7) if x < n_train] or [1])
+            rej = rej_order[i % len(rej_order)]
+            guarded(ctx, rejected_case, {"stream": "rejected", "rej": list(rej)}, ctx, drv, cfg, b, rej, i % 3 != 2)
         ctx.exhaustive = None
         ctx.extra["exhaustive_note"] = ("both tiers enumerate every (n<=40, b<=45, ratio=k/16, mode) for SimpleBatcher (thorough: also every (n<=200, b<=n+5) with sampled ratios) and every "
                                         "(n<=32 quick / 60 thorough, num_batches<=n+2 | max_batch<=n_max+5) for subdivide_batches; seeds/shuffles are sampled (the theorems cover all permutations)")
@@ -815,6 +963,8 @@ def replay(ctx, rep):
             numeric_case(ctx, drv, case["cfg"], only_b=case.get("b"))
         elif stream == "determinism":
             determinism_case(ctx, case["cfg"], case["b"])
+        elif stream == "rejected":
+            rejected_case(ctx, drv, case["cfg"], case["b"], tuple(case["rej"]), case["follow_reset"])
         elif stream == "history":
             history_case(ctx, drv, case["cfg"], case["b"])
     finally:
